@@ -53,6 +53,87 @@ fn rfc_framing(method: &str, status: u16, cls: &[&str], tes: &[&str]) -> Expect 
     Expect::Close
 }
 
+/// One case: the head is `others.0` fields, the Content-Length fields, the Transfer-Encoding fields, `others.1`
+/// fields. RFC 9112 §6.3 makes the framing a function of method, status and the Content-Length /
+/// Transfer-Encoding fields alone: no other field (in particular no `Connection` option nominating
+/// them as hop-by-hop, no look-alike name) may change it.
+#[allow(clippy::too_many_arguments)]
+fn run_one(m: &str, st: u16, cls: &[&str], tes: &[&str], others: &(Vec<(&str, &str)>, Vec<(&str, &str)>, &str), body: &[u8], bi: usize, sink: &mut Sink) {
+    let body: &&[u8] = &body;
+    let mut head = format!("HTTP/1.1 {} X\r\n", st).into_bytes();
+    for (n, v) in &others.0 {
+        head.extend_from_slice(format!("{}: {}\r\n", n, v).as_bytes());
+    }
+    for v in cls {
+        head.extend_from_slice(b"Content-Length:");
+        head.extend_from_slice(v.as_bytes());
+        head.extend_from_slice(b"\r\n");
+    }
+    for v in tes {
+        head.extend_from_slice(b"Transfer-Encoding: ");
+        head.extend_from_slice(v.as_bytes());
+        head.extend_from_slice(b"\r\n");
+    }
+    for (n, v) in &others.1 {
+        head.extend_from_slice(format!("{}: {}\r\n", n, v).as_bytes());
+    }
+    head.extend_from_slice(b"\r\n");
+    let mut wire = head.clone();
+    wire.extend_from_slice(body);
+    let reads = Reads::Sizes(vec![2, 1 << 16, 1 << 16, 1 << 16, 7]);
+    let case = RespCase { method: m.into(), max_headers: 100, segs: vec![Seg::Data(wire.clone())], reads };
+    let out = run_resp(&case);
+    let expect = rfc_framing(m, st, cls, tes);
+    let tag = format!("{:?}", expect).split('(').next().unwrap().to_lowercase();
+    let o: Result<(), (String, String)> = (|| {
+        let exp: Decoded = match &expect {
+            Expect::Unconstrained => {
+                if matches!(out.head, HeadOut::Panic) {
+                    return Err(("panic-unconstrained".to_string(), "panic".to_string()));
+                }
+                return Ok(());
+            }
+            Expect::Refuse => {
+                return match &out.head {
+                    HeadOut::Err(k) if k == "contentLength" => Ok(()),
+                    h => Err(("bad-length-accepted".to_string(), format!("Content-Length list {:?} must be refused with InvalidResponse(ContentLength), got {:?}", cls, h))),
+                };
+            }
+            Expect::Empty => Decoded { payload: vec![], end: End::Complete(0) },
+            Expect::Chunked => spec::decode_chunked(body, 128),
+            Expect::Length(n) => spec::decode_length(body, (*n).min(usize::MAX as u64) as usize),
+            Expect::Close => spec::decode_close(body),
+        };
+        match &out.head {
+            HeadOut::Ok(s) if *s == st => {}
+            h => return Err((format!("head-{}", tag), format!("send() gave {:?}, RFC framing is {:?}", h, expect))),
+        }
+        let d = delivery::check(&exp, &case.reads, &out.events, &tag)?;
+        if matches!(exp.end, End::Complete(_)) {
+            if d.got != exp.payload || d.saw_err {
+                return Err((format!("wrong-body-{}", tag), format!("RFC framing {:?}: expected body {:?}, read {:?} (error seen: {})", expect, String::from_utf8_lossy(&exp.payload), String::from_utf8_lossy(&d.got), d.saw_err)));
+            }
+        } else if !d.saw_err {
+            return Err((format!("no-error-{}", tag), "truncated frame drained without error".into()));
+        }
+        Ok(())
+    })();
+    sink.push(Case {
+        tags: vec![
+            format!("expect={}", tag),
+            format!("method={}", m),
+            format!("status={}", st),
+            format!("ncl={}", cls.len()),
+            format!("nte={}", tes.len()),
+            format!("trail={}", bi == 1),
+            format!("other-fields={}", others.2),
+        ],
+        op: case.op_line(),
+        impl_line: out.line(),
+        oracle: o,
+    });
+}
+
 pub fn generate(_seed: u64, tier: &str, sink: &mut Sink) {
     let methods = ["GET", "HEAD", "POST"];
     let statuses = [100u16, 101, 199, 200, 204, 205, 304, 404];
@@ -102,71 +183,32 @@ pub fn generate(_seed: u64, tier: &str, sink: &mut Sink) {
                         if tier != "thorough" && cls.len() == 2 && tes.len() > 0 && tes != &vec!["chunked"] {
                             continue;
                         }
-                        let mut head = format!("HTTP/1.1 {} X\r\n", st).into_bytes();
-                        for v in cls {
-                            head.extend_from_slice(b"Content-Length:");
-                            head.extend_from_slice(v.as_bytes());
-                            head.extend_from_slice(b"\r\n");
-                        }
-                        for v in tes {
-                            head.extend_from_slice(b"Transfer-Encoding: ");
-                            head.extend_from_slice(v.as_bytes());
-                            head.extend_from_slice(b"\r\n");
-                        }
-                        head.extend_from_slice(b"\r\n");
-                        let mut wire = head.clone();
-                        wire.extend_from_slice(body);
-                        let reads = Reads::Sizes(vec![2, 1 << 16, 1 << 16, 1 << 16, 7]);
-                        let case = RespCase { method: m.into(), max_headers: 100, segs: vec![Seg::Data(wire.clone())], reads };
-                        let out = run_resp(&case);
-                        let expect = rfc_framing(m, st, cls, tes);
-                        let tag = format!("{:?}", expect).split('(').next().unwrap().to_lowercase();
-                        let o: Result<(), (String, String)> = (|| {
-                            let exp: Decoded = match &expect {
-                                Expect::Unconstrained => {
-                                    if matches!(out.head, HeadOut::Panic) {
-                                        return Err(("panic-unconstrained".to_string(), "panic".to_string()));
-                                    }
-                                    return Ok(());
-                                }
-                                Expect::Refuse => {
-                                    return match &out.head {
-                                        HeadOut::Err(k) if k == "contentLength" => Ok(()),
-                                        h => Err(("bad-length-accepted".to_string(), format!("Content-Length list {:?} must be refused with InvalidResponse(ContentLength), got {:?}", cls, h))),
-                                    };
-                                }
-                                Expect::Empty => Decoded { payload: vec![], end: End::Complete(0) },
-                                Expect::Chunked => spec::decode_chunked(body, 128),
-                                Expect::Length(n) => spec::decode_length(body, (*n).min(usize::MAX as u64) as usize),
-                                Expect::Close => spec::decode_close(body),
-                            };
-                            match &out.head {
-                                HeadOut::Ok(s) if *s == st => {}
-                                h => return Err((format!("head-{}", tag), format!("send() gave {:?}, RFC framing is {:?}", h, expect))),
-                            }
-                            let d = delivery::check(&exp, &case.reads, &out.events, &tag)?;
-                            if matches!(exp.end, End::Complete(_)) {
-                                if d.got != exp.payload || d.saw_err {
-                                    return Err((format!("wrong-body-{}", tag), format!("RFC framing {:?}: expected body {:?}, read {:?} (error seen: {})", expect, String::from_utf8_lossy(&exp.payload), String::from_utf8_lossy(&d.got), d.saw_err)));
-                                }
-                            } else if !d.saw_err {
-                                return Err((format!("no-error-{}", tag), "truncated frame drained without error".into()));
-                            }
-                            Ok(())
-                        })();
-                        sink.push(Case {
-                            tags: vec![
-                                format!("expect={}", tag),
-                                format!("method={}", m),
-                                format!("status={}", st),
-                                format!("ncl={}", cls.len()),
-                                format!("nte={}", tes.len()),
-                                format!("trail={}", bi == 1),
-                            ],
-                            op: case.op_line(),
-                            impl_line: out.line(),
-                            oracle: o,
-                        });
+                        run_one(m, st, cls, tes, &(vec![], vec![], "none"), body, bi, sink);
+                    }
+                }
+            }
+        }
+    }
+    // second pass: the same decision in the presence of other fields
+    let others: Vec<(Vec<(&str, &str)>, Vec<(&str, &str)>, &str)> = vec![
+        (vec![("Connection", "close, Transfer-Encoding")], vec![], "connection-nominates-te-before"),
+        (vec![], vec![("Connection", "close, Transfer-Encoding")], "connection-nominates-te-after"),
+        (vec![("connection", "CONTENT-LENGTH")], vec![], "connection-nominates-cl-before"),
+        (vec![], vec![("Connection", "keep-alive"), ("connection", "content-length , transfer-encoding")], "connection-nominates-both-after"),
+        (vec![("Keep-Alive", "timeout=5"), ("Connection", "Keep-Alive")], vec![], "keep-alive"),
+        (vec![("TE", "chunked"), ("X-Transfer-Encoding", "chunked")], vec![("Transfer-Encoding-X", "chunked")], "te-lookalikes"),
+        (vec![("Content-Length-X", "9"), ("X-Content-Length", "1")], vec![("Content-Range", "bytes 0-2/3")], "cl-lookalikes"),
+        (vec![("Trailer", "Expires"), ("Upgrade", "h2c")], vec![("Proxy-Connection", "keep-alive"), ("Content-Type", "text/plain; charset=chunked")], "misc"),
+    ];
+    let cl2: Vec<Vec<&str>> = vec![vec![], vec!["3"], vec!["0"], vec!["3", "3"], vec!["3", "4"], vec!["+3"], vec![""], vec!["18446744073709551616"]];
+    let te2: Vec<Vec<&str>> = vec![vec![], vec!["chunked"], vec!["identity, Chunked"], vec!["identity", "chunked"], vec!["identity"], vec!["chunked, identity"]];
+    for m in methods {
+        for st in if tier == "thorough" { &statuses[..] } else { &[101u16, 200, 204, 404][..] } {
+            for cls in &cl2 {
+                for tes in &te2 {
+                    for o in &others {
+                        let bi = (cls.len() + tes.len()) % 2;
+                        run_one(m, *st, cls, tes, o, body_after[bi], bi, sink);
                     }
                 }
             }
